@@ -10,14 +10,14 @@ use crate::session::*;
 pub fn c02(rep: &mut Report, tier: &str, seed: u64) {
     let caps = caps(tier);
     // (a) accumulator, all 256 byte values from every reachable state
-    let m = AccModel { bytes: (0u8..=255).collect(), prop: "C02" };
+    let m = AccModel { bytes: (0u8..=255).collect(), prop: "C02", refine: true };
     let name = m.name();
     run_model(rep, &m, &caps, seed);
     rep.required.push((name.clone(), "multibyte_scalar_completed".into()));
     rep.required.push((name, "dropped".into()));
     // (b) whole input decoder
     let bytes = if tier == "quick" { boundary_bytes() } else { (0u8..=255).collect() };
-    let m = DecByteModel { bytes, prop: "C02" };
+    let m = DecByteModel { bytes, prop: "C02", refine: tier == "quick" };
     let name = m.name();
     let mut c2 = caps.clone();
     if tier != "quick" {
